@@ -80,6 +80,116 @@ def replay(max_len):
     return rp
 
 
+# ---------------------------------------------------------------- which tokens the rules pick (real crawl + real _eval)
+PROTECTED = {"quoted_identifier", "quoted_literal", "inline_comment", "block_comment", "whitespace"}
+CHILD_KINDS = ["keyword", "naked_identifier", "quoted_identifier", "quoted_literal", "inline_comment", "block_comment", "whitespace",
+               "data_type_identifier", "boolean_literal", "function_name_identifier", "word"]
+PARENT_TYPES = ["data_type", "primitive_type", "datetime_type_identifier", "column_reference", "function_name", "select_clause_element",
+                "expression"]
+GRAND_TYPES = ["statement", "data_type", "function", "column_definition"]
+SEL_POLICIES = ["upper", "lower"]
+_NODE, _RULES = {}, {}
+
+
+def _node(t):
+    from sqlfluff.core.parser.segments import BaseSegment
+    if t not in _NODE:
+        _NODE[t] = type(f"N_{t}", (BaseSegment,), {"type": t, "can_start_end_non_code": True})
+    return _NODE[t]
+
+
+def _child(kind, pm):
+    from sqlfluff.core.parser.segments import (CodeSegment, CommentSegment, IdentifierSegment, KeywordSegment, LiteralSegment,
+                                               WhitespaceSegment, WordSegment)
+    return {
+        "keyword": lambda: KeywordSegment("fooBar", pm),
+        "naked_identifier": lambda: IdentifierSegment("fooBar", pm, instance_types=("naked_identifier",)),
+        "quoted_identifier": lambda: IdentifierSegment('"fooBar"', pm, instance_types=("quoted_identifier",)),
+        "quoted_literal": lambda: LiteralSegment("'fooBar'", pm, instance_types=("quoted_literal",)),
+        "inline_comment": lambda: CommentSegment("-- fooBar", pm, instance_types=("inline_comment",)),
+        "block_comment": lambda: CommentSegment("/* fooBar */", pm, instance_types=("block_comment",)),
+        "whitespace": lambda: WhitespaceSegment(" ", pm),
+        "data_type_identifier": lambda: CodeSegment("fooBar", pm, instance_types=("data_type_identifier",)),
+        "boolean_literal": lambda: LiteralSegment("tRue", pm, instance_types=("boolean_literal",)),
+        "function_name_identifier": lambda: CodeSegment("fooBar", pm, instance_types=("function_name_identifier",)),
+        "word": lambda: WordSegment("fooBar", pm),
+    }[kind]()
+
+
+def _cp_rules(policy):
+    if policy not in _RULES:
+        from sqlfluff.core import FluffConfig, Linter
+        names = ["capitalisation.keywords", "capitalisation.identifiers", "capitalisation.functions", "capitalisation.literals",
+                 "capitalisation.types"]
+        cfg = FluffConfig(overrides={"dialect": "ansi", "rules": "CP01,CP02,CP03,CP04,CP05"},
+                          configs={"rules": {n: {("capitalisation_policy" if n in (names[0], names[3]) else "extended_capitalisation_policy"): policy}
+                                             for n in names}})
+        _RULES[policy] = (cfg, {r.code: r for r in Linter(config=cfg).get_rulepack(config=cfg).rules})
+    return _RULES[policy]
+
+
+def run_selection(rule_code, policy, grand, parent, kinds):
+    """file > statement > grand > parent > [children...]; returns [(kind, old raw, new raw)] for every fix the rule proposes."""
+    from sqlfluff.core.parser.markers import PositionMarker
+    from sqlfluff.core.templaters import TemplatedFile
+    cfg, rules = _cp_rules(policy)
+    texts, pos, kids = [], 0, []
+    probe = [_child(k, None).raw for k in kinds]
+    tf = TemplatedFile.from_string("".join(probe))
+    for k, raw in zip(kinds, probe):
+        kids.append(_child(k, PositionMarker(slice(pos, pos + len(raw)), slice(pos, pos + len(raw)), tf)))
+        pos += len(raw)
+    tree = _node("file")((_node("statement")((_node(grand)((_node(parent)(tuple(kids)),)),)),))
+    vs, _, fixes, _ = rules[rule_code].crawl(tree, dialect=cfg.get("dialect_obj"), fix=True, templated_file=tf, ignore_mask=None,
+                                             fname=None, config=cfg)
+    out = []
+    for v in vs:
+        for fx in v.fixes:
+            k = [kind for kind, seg in zip(kinds, kids) if seg is fx.anchor]
+            out.append((k[0] if k else "<other>", fx.anchor.raw, "".join(e.raw for e in (fx.edit or []))))
+    return out
+
+
+def judge_selection(got):
+    problems = []
+    for kind, old, new in got:
+        if kind in PROTECTED or kind == "<other>":
+            problems.append(f"{kind} token {old!r} rewritten to {new!r}")
+        elif new.lower() != old.lower():
+            problems.append(f"{old!r} -> {new!r} changes more than letter case")
+    return problems
+
+
+def make_selection():
+    def factory(excluded=frozenset()):
+        def harness(c):
+            rule = choose(c, "rule", ["CP01", "CP02", "CP03", "CP04", "CP05"])
+            policy = choose(c, "policy", SEL_POLICIES)
+            grand, parent = choose(c, "grandparent_type", GRAND_TYPES), choose(c, "parent_type", PARENT_TYPES)
+            kinds = [choose(c, "token_kind", CHILD_KINDS)]
+            if bool(fresh_bool(c, "has_sibling")):
+                kinds.append(choose(c, "sibling_kind", ["keyword", "whitespace", "naked_identifier"]))
+            got = run_selection(rule, policy, grand, parent, kinds)   # REAL crawl + _eval
+            if got:
+                c.witness("fix_produced")
+            if kinds[0] in PROTECTED:
+                c.witness("protected_token_offered")
+            return not judge_selection(got)
+        return harness
+    return factory
+
+
+def replay_selection(cex):
+    rule = ["CP01", "CP02", "CP03", "CP04", "CP05"][int(cex.get("rule", 0))]
+    policy = SEL_POLICIES[int(cex.get("policy", 0))]
+    grand, parent = GRAND_TYPES[int(cex.get("grandparent_type", 0))], PARENT_TYPES[int(cex.get("parent_type", 0))]
+    kinds = [CHILD_KINDS[int(cex.get("token_kind", 0))]]
+    if cex.get("has_sibling"):
+        kinds.append(["keyword", "whitespace", "naked_identifier"][int(cex.get("sibling_kind", 0))])
+    p = judge_selection(run_selection(rule, policy, grand, parent, kinds))
+    return f"{rule} ({policy}) on {grand} > {parent} > {kinds}: " + "; ".join(p) if p else None
+
+
 def known_snake(entry):
     """End to end: CP02 with extended_capitalisation_policy=snake rewrites an identifier with extra characters."""
     import sqlfluff
@@ -104,4 +214,14 @@ def units(tier, seed):
         stubs=["rule context -> memory dict only; the token is a real KeywordSegment"],
         outside=["which segments the crawler selects (quoted identifiers, strings, comments are never handed to this kernel)",
                  "non-ASCII case mappings"],
-        witnesses_required=["fix_produced"], sharded=True, timeout_s=600 if tier == "quick" else 1800)]
+        witnesses_required=["fix_produced"], sharded=True, timeout_s=600 if tier == "quick" else 1800),
+        Unit(name="c15.token_selection",
+             functions=["sqlfluff.rules.capitalisation.CP01..CP05._eval", "SegmentSeekerCrawler.crawl", "BaseRule.crawl",
+                        "sqlfluff.utils.identifers.identifiers_policy_applicable"],
+             bounds={"rule": "CP01..CP05", "policy": SEL_POLICIES, "token kind": CHILD_KINDS, "parent type": PARENT_TYPES,
+                     "grandparent type": GRAND_TYPES, "sibling": "none / keyword / whitespace / identifier"},
+             make=make_selection(), replay=replay_selection,
+             stubs=["tree = real segment classes (ansi token classes, ad-hoc BaseSegment subclasses for the structural types): "
+                    "file > statement > grandparent > parent > tokens"],
+             outside=["dialect-specific token classes", "trees deeper than this", "templated tokens"],
+             witnesses_required=["fix_produced", "protected_token_offered"], sharded=True, timeout_s=600)]
